@@ -791,6 +791,19 @@ def _is_arith(e):
 
 
 # ----------------------------------------------------------------------------------------
+def resort(e):
+    """Re-establish the canonical operand order after a substitution (linear forms, commutative n-ary operators, and / or)."""
+    def f(x):
+        if x[0] == 'lin':
+            return ('lin', x[1], tuple(sorted(x[2], key=lambda t: _sort_key(t[0]))))
+        if x[0] == 'nary' and x[1] in ('&', '|', '^', '*'):
+            return ('nary', x[1], tuple(sorted(x[2], key=_sort_key)))
+        if x[0] in ('and', 'or'):
+            return (x[0], tuple(sorted(x[1], key=_sort_key)))
+        return None
+    return subst(e, f)
+
+
 # printer
 
 def show(e):
